@@ -251,9 +251,13 @@ theorem relay_addUnits : Units.addUnits 0 [mVdef] = .ok relayUnits := by
 
 /-- the VALID document is loaded by `loadFull` (unit work list included), to the same flat model as by `Load.load` -/
 theorem relay_loadFull : loadFull { doc := relayDoc, udefs := [mVdef] } = .ok (relayL.flat relayDoc) := by
-  rw [loadFull_clean (reg := relayUnits.1) (ust := relayUnits.2) (by decide +kernel) rfl relay_addUnits rfl rfl]
+  have hu : Units.addUnits 0 [mVdef] = .ok (relayUnits.1, relayUnits.2) := by rw [Prod.eta]; exact relay_addUnits
+  rw [loadFull_clean (reg := relayUnits.1) (ust := relayUnits.2) (by decide +kernel) rfl hu rfl rfl]
   have := load_eq relayDoc
   rw [relay_buildUnits] at this
+  -- (no unfolding of `relayUnits`: the pair is taken apart abstractly)
+  generalize relayUnits = p at this ⊢
+  obtain ⟨reg, ust⟩ := p
   exact this.symm.trans relay_load
 
 /-- every variant below has the same units, so the hypotheses "for the units the document defines" are about
